@@ -36,6 +36,58 @@ fn size_check_default(DCFG: &mut DedupeConfigS, GCFG: &GroupConfigS)
 '''
 
 
+MERGE_HEAD = r'''
+// ---- the whole block `if let Command::Group(GCFG) = .. { .. }` of run_dedupe: the settings of the `group` run recorded in
+// the report header are merged into the dedupe command's options
+#[verifier::external_body] pub struct PathS { _p: () }   // opaque
+pub struct PathsIter { pub ghost items: Seq<PathS> }
+impl PathsIter {
+    #[verifier::external_body]
+    pub fn collect(self) -> (r: Vec<PathS>) ensures r@ == self.items { unimplemented!() }   // ASSUMED std: collect keeps the items, in order
+}
+pub struct GroupConfigM { pub transform: Option<String>, pub cache: bool, pub match_links: bool, pub isolate: bool, pub hidden: bool }
+pub uninterp spec fn spec_rf_over(c: &GroupConfigM) -> usize;        // the replication limit `group` used (GroupConfig::rf_over: Kani contract, C06)
+pub uninterp spec fn spec_input_paths(c: &GroupConfigM) -> Seq<PathS>; // the input paths of the `group` run
+impl GroupConfigM {
+    #[verifier::external_body]
+    pub fn rf_over(&self) -> (r: usize) ensures r == spec_rf_over(self) { unimplemented!() }
+    #[verifier::external_body]
+    pub fn input_paths(&self) -> (r: PathsIter) ensures r.items == spec_input_paths(self) { unimplemented!() }
+}
+pub struct DedupeConfigM { pub no_check_size: bool, pub match_links: bool, pub rf_over: Option<usize>, pub isolated_roots: Vec<PathS> }
+fn merge_header(DCFG: &mut DedupeConfigM, GCFG: &GroupConfigM)
+    ensures
+        GCFG.transform is Some ==> final(DCFG).no_check_size, // @ob C08.header.a_transform_of_the_group_run_disables_the_size_check
+        final(DCFG).match_links == (old(DCFG).match_links || GCFG.match_links), // @ob C08.header.match_links_of_the_group_run_applies_as_if_passed_explicitly
+        old(DCFG).rf_over is Some ==> final(DCFG).rf_over == old(DCFG).rf_over, // @ob C08.header.an_explicit_rf_over_is_kept
+        old(DCFG).rf_over is None ==> final(DCFG).rf_over == Some(spec_rf_over(GCFG)), // @ob C08.header.rf_over_defaults_to_the_value_used_by_group
+        old(DCFG).isolated_roots@.len() == 0 && GCFG.isolate ==> final(DCFG).isolated_roots@ == spec_input_paths(GCFG), // @ob C08.header.isolate_roots_of_the_group_run_apply
+        !(old(DCFG).isolated_roots@.len() == 0 && GCFG.isolate) ==> final(DCFG).isolated_roots@ == old(DCFG).isolated_roots@, // @ob C08.header.explicit_isolated_roots_are_kept
+{
+'''
+
+
+BASE_HEAD = r'''
+// ---- the block `if let Command::Group(ref mut GCFG) = .. { .. }` of main::get_command_config: the options of the group run
+// re-parsed from the header's command line get the base directory RECORDED in the header (the directory the report's
+// paths and the group run's relative input paths - hence the inherited --isolate roots - were resolved against)
+#[verifier::external_body] pub struct PathB { _p: () }   // opaque: two paths are not known to be equal
+impl PathB {
+    #[verifier::external_body]
+    pub fn clone(&self) -> (r: PathB) ensures r == *self { unimplemented!() }
+    #[verifier::external_body]
+    pub fn is_relative(&self) -> bool { unimplemented!() }
+    #[verifier::external_body]
+    pub fn is_absolute(&self) -> bool { unimplemented!() }
+}
+pub struct GroupConfigB { pub base_dir: PathB }
+pub struct ReportHeaderB { pub base_dir: PathB }
+fn take_base_dir(GCFG: &mut GroupConfigB, HDR: &ReportHeaderB)
+    ensures final(GCFG).base_dir == HDR.base_dir, // @ob C08.header.the_group_options_get_the_base_dir_recorded_in_the_header
+{
+'''
+
+
 def build():
     ub = UnitBuild(NAME)
     src = Source("fclones/src/main.rs")
@@ -67,9 +119,41 @@ def build():
         ub.piece(Piece(reg, renames=ren))
         ub.spec("\n}\n")
     ub.optional("statement of run_dedupe that sets no_check_size", size_check, prefixes=["C04.run_dedupe.the_length_check"])
+
+    def merge():
+        mg = re.search(r"if let Command::Group\((?:ref\s+)?(\w+)\)\s*=[^{]*", fn.text)
+        if not mg:
+            raise LostAnchor("no `if let Command::Group(c) = .. {` in run_dedupe")
+        gcfg = mg.group(1)
+        body = src.block_contents(src.block_of(fn, mg.group(0).rstrip()))
+        ors = list(re.finditer(r"^[ \t]*((\w+)\.\w+)\s*\|=\s*([^;]+);[ \t]*$", body.text, re.M))
+        names = set(m.group(2) for m in ors) | set(re.findall(r"^[ \t]*(\w+)\.\w+\s*=[^=]", body.text, re.M))
+        if len(names) != 1:
+            raise LostAnchor("the block does not write the fields of exactly one configuration value")
+        dcfg = names.pop()
+        # `X |= E;` on bool desugared as above, one distinct temporary per statement
+        ren = tuple((m.group(0).strip(), "let verif_rhs%d: bool = %s; if verif_rhs%d { %s = true; }" % (k, m.group(3).strip(), k, m.group(1)))
+                    for k, m in enumerate(ors))
+        ub.spec(MERGE_HEAD.replace("DCFG", dcfg).replace("GCFG", gcfg))
+        ub.piece(Piece(body, renames=ren))
+        ub.spec("\n}\n")
+    ub.optional("block of run_dedupe that merges the report header's settings", merge, prefixes=["C08.header."])
+
+    def base_dir():
+        g = src.item("fn get_command_config(")
+        mh = re.match(r"fn get_command_config\(\s*(\w+)\s*:\s*&ReportHeader\s*\)", g.text)
+        mg = re.search(r"if let Command::Group\(ref mut (\w+)\)\s*=[^{]*", g.text)
+        if not mh or not mg:
+            raise LostAnchor("get_command_config(header: &ReportHeader) has no `if let Command::Group(ref mut c) = .. {`")
+        body = src.block_contents(src.block_of(g, mg.group(0).rstrip()))
+        ub.spec(BASE_HEAD.replace("GCFG", mg.group(1)).replace("HDR", mh.group(1)))
+        ub.piece(Piece(body))
+        ub.spec("\n}\n")
+    ub.optional("block of get_command_config that restores the base directory", base_dir, prefixes=["C08.header.the_group_options_get"])
     ub.spec("\n} // verus!\nfn main() {}\n")
-    ub.functions = ["main::run_dedupe [statement slices: default of modified_before; the statement that sets no_check_size]"]
+    ub.functions = ["main::run_dedupe [statement slices: default of modified_before; the statement that sets no_check_size; the whole `if let Command::Group(c)` block merging the header's settings]", "main::get_command_config [slice: the block that restores the group run's base directory]"]
     ub.assumptions = [
+        "merge slice: GroupConfig::rf_over and input_paths are uninterpreted (rf_over has a Kani function contract, C06); `.collect()` keeps the items in order; that the header's command line re-parses to the configuration of the group run (get_command_config, clap) is NOT covered",
         "`X |= E;` on bool is desugared to `let verif_rhs: bool = E; if verif_rhs { X = true; }` (Verus has no `|=` on bool); GroupConfig / DedupeConfig stand-ins hold only the fields named in the prelude",
         "DedupeConfig / ReportHeader are stand-ins holding the one field each the statement touches; chrono's DateTime is an opaque Copy value",
         "that partition later compares every file against this limit is unit partition_filters; that the header timestamp was taken before `group` began reading files is NOT covered (it is not: DESIGN.md 7.2 D12)",
